@@ -1,6 +1,6 @@
 (* Case records and checkers for the codec correspondence (C09, and the decoder part of
    C04).  No proofs here: this file must build even when a proof is broken. *)
-From Passage Require Import Lib.Bytes Lib.Utf8 Spec.Leb128 Spec.McLayout Codec.VarInt Codec.Desc
+From Passage Require Import Codec.Alloc Lib.Bytes Lib.Utf8 Spec.Leb128 Spec.McLayout Codec.VarInt Codec.Desc
   Gen.PacketsGen Gen.ConstsGen Codec.PacketCheck.
 
 Inductive dres := DOk (vs : list fv) (rest : Z) | DErr (e : err).
@@ -110,6 +110,9 @@ Definition check_c04_dec (c : c09case) : Z :=
   match c with
   | DEC p b r maxreq =>
       moni (match r with DErr EPanic => false | _ => true end
-            && (maxreq <=? 4 * Z.of_nat (length b) + 65536))
+            && (maxreq <=? 4 * Z.of_nat (length b) + 65536)
+            (* and within twice what the memory model of the decoders (Codec/Alloc.v, bounded by
+               C04_decoder_memory_bounded) says this input makes them reserve (Vec doubling) *)
+            && (maxreq <=? 2 * mem_dec varint_read_iters varlong_read_iters (rkinds p) b + 1024))
   | _ => 4
   end.
